@@ -33,7 +33,7 @@ LEVEL_NOTE = "Trusts the GFA1 line grammar in mc/rgfa.py (TAG:TYPE:VALUE with th
 DESIGN_REF = "DESIGN.md §4 C07"
 EXHAUSTIVE = True
 
-S_TAGS = ["LN:i:3", "SN:Z:chr1", "SO:i:0", "SR:i:0", "xf:f:-0.5", "zs:Z:a:b#c.d", "ba:B:i,1,-2", "hx:H:1AE3", "ch:A:*", "xi:i:-7", "co:Z:two words"]
+S_TAGS = ["LN:i:3", "SN:Z:chr1", "SO:i:0", "SR:i:0", "xf:f:-0.5", "zs:Z:a:b#c.d", "ba:B:i,1,-2", "hx:H:1AE3", "ch:A:*", "xi:i:-7", "co:Z:two words", "rc:i:+12", "kc:i:007", "dp:f:1e-3", "df:f:.50"]
 L_TAGS = ["SR:i:0", "L1:i:3", "zs:Z:x:y", "fl:f:1e-05", "ba:B:f,0.5", "co:Z:checked by hand"]
 OVERLAPS = ["0M", "5M", "12M"]
 OTHER = ["H\tVN:Z:1.0", "# a comment", "P\tp1\ts1+,s2+\t*", "W\tsample\t1\tchr1\t0\t5\t>s1>s2"]
@@ -339,6 +339,18 @@ def order_part(res, spec, tier, scratch):
                 cb.g, cb.chrom, cb.order = bare, c.chrom, c.order
                 judge_order_outputs(res, scratch, bare, [cb], "chr1", True, True, f"[{name}] haplotype segments without tags")
                 res.count("runs_with_tagless_segments")
+            # a chromosome that is one segment (chrM): ordered, tagged and written like any other
+            mg = rgfa.Graph()
+            mg.add_seg("m1", "ACGTACGT", [("LN", "i", "8"), ("SN", "Z", "chrM"), ("SO", "i", "0"), ("SR", "i", "0"), ("rc", "i", "+12")])
+
+            class CM:
+                pass
+
+            cm = CM()
+            cm.g, cm.chrom, cm.order = mg, "chrM", [("s", "m1")]
+            g3 = gen.merge_graphs([c.g, mg])
+            for by_chrom in (True, False):
+                judge_order_outputs(res, scratch, g3, [c, cm], "chrM,chr1", by_chrom, True, f"[{name}+single-segment chrM] by_chrom={by_chrom}")
             g2 = gen.merge_graphs([c.g, second.g])
             for req in ("chr1,chr2", "chr2,chr1", "chr2"):
                 for by_chrom in (True, False):
